@@ -27,9 +27,11 @@ TIERS = {
 RULE = ("One run = one seeded ILP request (1-6 integer items <= 200, 1-4 bins, copies as one number or per item in {0,1,2}, weights in "
         "{none, uniform, non-uniform}, an extra constraint 'smallest==c' / 'largest<=c' / 'smallest>=c' with c drawn around reachable values "
         "so that feasible and infeasible cases both occur, one of the five sum-based objectives, list / dict / names+valueof input) solved "
-        "under one simulated solver behaviour: real CBC (fault-free arm, judged against an exhaustive reference model of reachable sum "
-        "vectors), or a fault (11 non-OPTIMAL statuses after a real solve or without any solve, solver exceptions, a simulated solve duration "
-        "longer than the time limit prtpy forwarded). A fault-free mismatch is re-solved with CBC preprocessing off to tell the solver's own "
+        "under one simulated solver behaviour: real CBC, in 30% of these runs with the solution read back only up to the integrality tolerance "
+        "(fault-free arm, judged against an exhaustive reference model of reachable sum vectors), or a fault (11 non-OPTIMAL statuses after a real "
+        "solve or without any solve, solver exceptions incl. a user interrupt, a simulated solve duration longer than the time limit prtpy "
+        "forwarded). In 20% of the runs the caller has used the same objective object for a request with another number of bins just before; the "
+        "logging level of prtpy is drawn per run. A fault-free mismatch is re-solved with CBC preprocessing off to tell the solver's own "
         "wrong answers apart from prtpy's. evaluations = calls of the real ILP partitioner judged. A case is non-trivial when at least one "
         "option is non-default (copies != 1, weights, constraint, time limit) or a solver fault fired; distinct = distinct plans among those.")
 
@@ -42,7 +44,8 @@ ASSUMPTIONS = [
 
 COMPONENTS = {
     "real": ["prtpy.partitioning.integer_programming.optimal", "prtpy.partition adaptor", "prtpy.objectives", "bins-managers", "python-mip 2.0.0", "CBC (cbcbox) in modes real / real_then_status / sim_timeout"],
-    "simulated": ["solver verdict, exceptions and duration: dsim.seams.SimSolver at mip.Model.optimize"],
+    "simulated": ["solver verdict, exceptions and duration: dsim.seams.SimSolver at mip.Model.optimize", "solution read-back within the integrality tolerance: mip.Var.x",
+                  "logging level of the prtpy.* loggers (LogSeam)"],
     "stubbed": ["CBC is not run at all in modes stub_status / raise / sim_timeout(NO_SOLUTION_FOUND)"],
 }
 
